@@ -189,7 +189,9 @@ def listing_combos(name, tier):
 
 CWDS = ["root", "subdir", "licenses", "outside"]
 # names of the root directory itself that are special to pattern languages; 'p*x' has a sibling 'pyx' the pattern would also match
-ROOTNAMES = ["p[1]", "[!a] b", "p*x", "p?x", "{a,b}", "r\\d"]
+ROOTNAMES = ["p[1]", "[!a] b", "p*x", "p?x", "{a,b}", "r\\d",
+             # names that mean something to the tool when they occur *inside* a project
+             "subprojects", "LICENSES", ".reuse", "x.license", "LICENSE"]
 SPELLINGS = ["absolute", "dot", "relative", "dotdot", "trailing-slash", "no-root-option"]
 
 
